@@ -16,6 +16,8 @@ type Lexer struct {
 	// is then date2, status, code and free-text description, never amounts or accounts.
 	inHeader    bool
 	headerStage int
+	// lastType is the type of the token returned last
+	lastType TokenType
 }
 
 const (
@@ -37,6 +39,12 @@ func NewLexer(input string) *Lexer {
 }
 
 func (l *Lexer) Next() Token {
+	tok := l.next()
+	l.lastType = tok.Type
+	return tok
+}
+
+func (l *Lexer) next() Token {
 	if l.pos >= len(l.input) {
 		return l.makeToken(TokenEOF, "")
 	}
@@ -599,6 +607,11 @@ func (l *Lexer) nextIsLetterCommodity() bool {
 }
 
 func (l *Lexer) followsAmountNumber(pos int) bool {
+	// only a number token makes the following word the commodity of an amount: an account
+	// name that ends with a digit does not ("acct1  USD10")
+	if l.lastType != TokenNumber {
+		return false
+	}
 	if pos == 0 {
 		return false
 	}
